@@ -9,6 +9,7 @@ import (
 	"context"
 	"encoding/binary"
 	"fmt"
+	syncaggstd "github.com/attestantio/vouch/services/synccommitteeaggregator/standard"
 	keystorev4 "github.com/wealdtech/go-eth2-wallet-encryptor-keystorev4"
 	nd "github.com/wealdtech/go-eth2-wallet-nd/v2"
 	filesystem "github.com/wealdtech/go-eth2-wallet-store-filesystem"
@@ -172,8 +173,17 @@ func scenarioMessenger(c *harness.Ctx, rep int) {
 	}
 	specP := harness.NewSpec(4, map[string]any{"SYNC_COMMITTEE_SIZE": uint64(32), "SYNC_COMMITTEE_SUBNET_COUNT": uint64(4), "TARGET_AGGREGATORS_PER_SYNC_SUBCOMMITTEE": uint64(2)})
 	sg, _ := signerstd.New(bg, signerstd.WithLogLevel(zerolog.Disabled), signerstd.WithMonitor(nullmetrics.New()), signerstd.WithClientMonitor(nullmetrics.New()), signerstd.WithSpecProvider(specP), signerstd.WithDomainProvider(harness.RecDomains{}))
+	// the real sync committee aggregator behind the messenger: the message job hands it the slot's head root, the
+	// aggregation job of the slot takes it out again later in the slot - or, when late, during the next slot's message job
+	agg, err := syncaggstd.New(bg, syncaggstd.WithLogLevel(zerolog.Disabled), syncaggstd.WithMonitor(nullmetrics.New()), syncaggstd.WithSpecProvider(specP), syncaggstd.WithBeaconBlockRootProvider(&rootNode{}),
+		syncaggstd.WithContributionAndProofSigner(sg), syncaggstd.WithValidatingAccountsProvider(nil2{}), syncaggstd.WithSyncCommitteeContributionProvider(mock.NewSyncCommitteeContributionProvider()),
+		syncaggstd.WithSyncCommitteeContributionsSubmitter(mock.NewSyncCommitteeContributionsSubmitter()), syncaggstd.WithChainTime(env.Clock))
+	if err != nil {
+		c.Inconclusive("sync aggregator: " + err.Error())
+		return
+	}
 	msgr, err := msgstd.New(bg, msgstd.WithLogLevel(zerolog.Disabled), msgstd.WithProcessConcurrency(2), msgstd.WithMonitor(nullmetrics.New()), msgstd.WithChainTimeService(env.Clock),
-		msgstd.WithSyncCommitteeAggregator(mockSyncAgg{}), msgstd.WithSpecProvider(specP), msgstd.WithBeaconBlockRootProvider(&rootNode{}), msgstd.WithSyncCommitteeMessagesSubmitter(mock.NewSyncCommitteeMessagesSubmitter()),
+		msgstd.WithSyncCommitteeAggregator(agg), msgstd.WithSpecProvider(specP), msgstd.WithBeaconBlockRootProvider(&rootNode{}), msgstd.WithSyncCommitteeMessagesSubmitter(mock.NewSyncCommitteeMessagesSubmitter()),
 		msgstd.WithValidatingAccountsProvider(nil2{}), msgstd.WithSyncCommitteeRootSigner(sg), msgstd.WithSyncCommitteeSelectionSigner(sg), msgstd.WithSyncCommitteeSubscriptionsSubmitter(mock.NewSyncCommitteeSubscriptionsSubmitter()))
 	if err != nil {
 		c.Inconclusive("messenger: " + err.Error())
@@ -198,6 +208,14 @@ func scenarioMessenger(c *harness.Ctx, rep int) {
 				s := slot.Load()
 				_, _ = msgr.GetDataUsedForSlot(phase0.Slot(s - 1))
 				msgr.RemoveHistoricDataUsedForSlotVerification(phase0.Slot(s))
+			}
+		},
+		func() { // aggregation jobs: of the slot itself, and late ones of the slot before
+			for i := 0; !stop.Load(); i++ {
+				s := slot.Load()
+				agg.Aggregate(bg, &synccommitteeaggregator.Duty{Slot: phase0.Slot(s - uint64(i%2)), ValidatorIndices: []phase0.ValidatorIndex{31},
+					SelectionProofs: map[phase0.ValidatorIndex]map[uint64]phase0.BLSSignature{31: {1: {}}}, Accounts: map[phase0.ValidatorIndex]e2wtypes.Account{31: env.Accts[31]}})
+				c.Count("sync_aggregation_jobs", 1)
 			}
 		},
 	)
